@@ -29,12 +29,15 @@ Zero == -2000000000          \* the zero instant (year 1) seen from now
 
 Mids == IF Tier = "q" THEN {90000, 7000} ELSE {90000, 7000, 0, 1, 3600000}
 
-IICls == {"farIn", "in1", "on", "out1", "farOut", "future", "now", "absent", "garbage"}
+\* ancient: a well-formed instant centuries back (years 1000 - 1675: beyond what a 64-bit count of nanoseconds since 1970
+\* holds) - as stale as an instant can be
+IICls == {"farIn", "in1", "on", "out1", "farOut", "ancient", "future", "now", "absent", "garbage"}
 AbsII(c, mid) == CASE c = "farIn"  -> Now - (mid \div 2)
                    [] c = "in1"    -> Now - mid + 1
                    [] c = "on"     -> Now - mid
                    [] c = "out1"   -> Now - mid - 1
                    [] c = "farOut" -> Now - mid - Far
+                   [] c = "ancient" -> Zero + 1
                    [] c = "future" -> Now + Far
                    [] c = "now"    -> Now
                    [] OTHER        -> Zero
